@@ -198,7 +198,12 @@ def obligations(tier, rng):
     for op in OPS:
         for itext, unit, period in [('[0,1500ms]', None, (1, 's')), ('[500ms,2s]', None, (1, 's')), ('[0,1500]', 'ms', (1, 's')),
                                     ('[0,3]', 's', (2, 's')), ('[0.5,1]', None, (1, 's')), ('[0,750ms]', None, (500, 'ms')),
-                                    ('[1,2]', 'ms', (1, 's'))]:
+                                    ('[1,2]', 'ms', (1, 's')),
+                                    # both bounds off the grid by the same amount: the window length IS a multiple, and so are the bounds that pastify() derives
+                                    ('[0.5,1.5]', None, (1, 's')), ('[500ms,2500ms]', None, (1, 's')), ('[0.25,0.75]', 's', (500, 'ms')),
+                                    # remainders below one nanosecond (the finest unit)
+                                    ('[0,1.5ns]', None, (1, 'ns')), ('[0,0.0015us]', None, (1, 'ns')), ('[0,1.5]', 'ns', (1, 'ns')), ('[0.5ns,2ns]', None, (1, 'ns')),
+                                    ('[0,2.0005us]', None, (1, 'us')), ('[0,2000.5ns]', None, (1, 'us')), ('[0,0.0000000015]', 's', (1, 'ns'))]:
             for mode in ('offline', 'online', 'pastified'):
                 if mode == 'online' and op not in ('once_t', 'historically_t', 'since_t'):
                     continue
